@@ -532,7 +532,12 @@ static var Table_Get(var self, var key) {
   struct Table* t = self;
   
   if (key >= t->data and ((char*)key) < ((char*)t->data) + t->nslots * Table_Step(self)) {
-    return Table_Val(self, (((char*)key) - ((char*)t->data)) / Table_Step(self));
+    /* shortcut only for the key object of an occupied slot; any other pointer
+    ** into the slot array (a stored value, say) is looked up like any key */
+    uint64_t i = (((char*)key) - ((char*)t->data)) / Table_Step(self);
+    if (key is Table_Key(t, i) and Table_Key_Hash(t, i) isnt 0) {
+      return Table_Val(t, i);
+    }
   }
   
   key = cast(key, t->ktype);
